@@ -180,6 +180,14 @@ pub fn replay(case: &Value) -> Option<String> {
     }
 }
 
+fn short(g: &Got) -> String {
+    match g {
+        Got::Set(_) => "a set".into(),
+        Got::Err(e) => format!("Err({e})"),
+        Got::Panic(p) => format!("panic({p})"),
+    }
+}
+
 pub fn run(tier: &str) -> Result<Report, String> {
     let mut rep = Report::new("C15", tier, "model_checking");
     std_assumptions(&mut rep);
@@ -239,6 +247,44 @@ pub fn run(tier: &str) -> Result<Report, String> {
             rep.add_count("formulae_x_colour_restricted_networks", fs2.len() as u64);
             rep.violations.extend(bad.into_iter().take(20));
         }
+    }
+    // MANY spare variable sets (k = 11, 12, 21: two-digit indices `_extra_10`, `_extra_11`, ...): the sanitised result must be the
+    // one obtained with k = nesting depth, the raw one independent of every spare variable
+    {
+        let mut n_many = 0u64;
+        for b in nets.iter().filter(|b| ["con2", "asy2", "cyc3"].contains(&b.name.as_str())) {
+            let base = Env::new(b)?;
+            let mut fs: Vec<F> = templates(&base.ctxs[0].user, false, if tier == "quick" { 4 } else { 8 });
+            fs.extend(Gen::new(Alphabet::plain(base.ctxs[0].nprops(), 2)).closed_up_to(3).into_iter().filter(|f| f.qdepth() >= 1));
+            for k in if tier == "quick" { vec![12u16] } else { vec![11u16, 12, 21] } {
+                let many = Arc::new(crate::bridge::Bound::new_opt(&b.name, &b.spec, k, false).map_err(|e| format!("{e:?}"))?);
+                let cm = NetCtx::new(many.clone(), crate::oracle::Labels::default(), "none");
+                let bad: Vec<Violation> = fs
+                    .par_iter()
+                    .filter_map(|f| {
+                        let text = f.show(&cm.user);
+                        let d = f.qdepth();
+                        let what = match (cm.formula(&text), cm.formula_dirty(&text), base.ctxs[d].formula(&text)) {
+                            (Got::Set(a), Got::Set(raw), Got::Set(c)) => {
+                                if a.as_bdd() != c.as_bdd() {
+                                    Some(format!("the sanitised result with k={k} differs from the one with k={d}"))
+                                } else if many.depends_on_extras(&raw) {
+                                    Some(format!("the raw result with k={k} depends on spare variables"))
+                                } else {
+                                    None
+                                }
+                            }
+                            (a, raw, c) => Some(format!("evaluation fails: k={k} sanitised {} / raw {} / k={d} {}", short(&a), short(&raw), short(&c))),
+                        };
+                        what.map(|w| Violation { case: json!({"kind": "none"}), what: format!("formula {text} on {}: {w}", b.name), size: f.size() })
+                    })
+                    .collect();
+                n_many += fs.len() as u64;
+                rep.violations.extend(bad.into_iter().take(10));
+            }
+        }
+        rep.evaluations += n_many * 3;
+        rep.add_count("formulae_x_graphs_with_many_spare_sets", n_many);
     }
     // "all graphs with k >= nesting depth spare variable sets": the number of spare variables may differ from network
     // variable to network variable (SymbolicContext::with_extra_state_variables takes a per-variable map); raw and sanitised
